@@ -9,7 +9,9 @@ import TbotVerif.Spec.Chan
     shell prompt) and the number of bytes each call took from the stream — nothing of the channel
     or proxy implementation.  A step is either *accepted*, *rejected* (the property is violated)
     or *outside the domain* (then nothing more is demanded; the domain is spelled out in
-    `Ref.step` and summarised in `Props/C10.lean`). -/
+    `Ref.step` and summarised in `Props/C10.lean`).  One kind of rejection is singled out
+    (`V.split`): a value-returning read that has consumed part of the shell's prompt — the
+    known finding of this property, see `Props/C10.lean`. -/
 
 namespace Run
 open Chan
@@ -25,6 +27,7 @@ inductive V (α : Type) where
   | ok (next : α)
   | bad                  -- the observation contradicts the property
   | outside              -- the scenario has left the domain of the property
+  | split                -- contradicts the property: a returned value reaches into the shell's prompt
   deriving Repr, Inhabited
 
 structure Ref where
@@ -44,9 +47,6 @@ def promptOk (ps1 : Bytes) (stream : Bytes) (status : Option Nat) : Bool :=
 
 /-- what may be typed in one `send`: no line ending except as the last byte -/
 def typable (b : Bytes) : Bool := b.dropLast.all fun c => c != Tty.CR && c != Tty.LF
-
-/-- the delivery sizes are possible: positive, and not more than what is pending -/
-def sizesOk (sizes : List Nat) (pend : Bytes) : Bool := sizes.all (0 < ·) && sizes.sum ≤ pend.length
 
 namespace Ref
 
@@ -72,12 +72,14 @@ def reading (ps1 : Bytes) (t : Option Nat) (o : OpObs) (r : Ref)
     (val : TRes → Bytes → Bool) : V Ref :=
   if t == some 0 then .outside else
   let k := o.pieces.sum
-  if !sizesOk o.pieces r.pend then .bad else
+  if r.pend.length < k then .bad else      -- more than was pending cannot have been delivered
   match o.res with
   | .err .ended => if r.fin k then .ok { r.consume k with phase := .ended } else .bad
   | .err .timeout => if t.isSome && k == r.pend.length && !r.fin k then .ok (r.consume k) else .bad
   | .err .hang => if t.isNone && k == r.pend.length && !r.fin k then .ok (r.consume k) else .bad
-  | res => if !r.fin k && r.leaves ps1 k && val res (r.pend.take k) then .ok (r.consume k) else .bad
+  | res =>
+    if r.fin k || !val res (r.pend.take k) then .bad
+    else if r.leaves ps1 k then .ok (r.consume k) else .split
 
 def valExpect (pats : List Pat) (res : TRes) (buf : Bytes) : Bool :=
   match res with
@@ -114,7 +116,7 @@ def term (ps1 : Bytes) (o : OpObs) (r : Ref) (want : Nat → List Char → TRes)
       let resp := Shell.respStatus false ps1 st
       let rest := if ph == .ended then [] else r.pend
       if ph == .ended && !r.pend.isEmpty then .outside else
-      if o.pieces.all (0 < ·) && o.pieces.sum == rest.length + resp.length
+      if o.pieces.sum == rest.length + resp.length
           && ps1.isSuffixOf rest == (ph == .running)
           && o.res == want st (text (rest.take (rest.length - ps1.length)))
       then .ok { r with since := r.since ++ rest, pend := [], phase := .terminated } else .bad
@@ -132,7 +134,7 @@ def step (ps1 bl : Bytes) (op : TOp) (o : OpObs) (r : Ref) : V Ref :=
         if !rb then (if o.res == .unit && o.pieces.isEmpty then .ok r' else .bad)
         else
           let k := o.pieces.sum
-          if o.res == .unit && o.pieces.all (0 < ·) && k == Tty.readBackLen payload && k ≤ r'.pend.length
+          if o.res == .unit && k == Tty.readBackLen payload && k ≤ r'.pend.length
           then .ok (r'.consume k) else .bad
       | v => v
   match op with
@@ -166,21 +168,24 @@ def step (ps1 bl : Bytes) (op : TOp) (o : OpObs) (r : Ref) : V Ref :=
 def walk (ps1 bl : Bytes) : List TOp → List OpObs → Ref → V (Ref × Bool)
   | [], [], r => .ok (r, false)
   | .raise :: _, [o], r =>
-    (match step ps1 bl .raise o r with | .ok r => .ok (r, true) | .bad => .bad | .outside => .outside)
+    (match step ps1 bl .raise o r with | .ok r => .ok (r, true) | .bad => .bad | .outside => .outside | .split => .split)
   | .raise :: _, _, _ => .bad
   | op :: ops, o :: os, r =>
     (match step ps1 bl op o r with
      | .ok r => walk ps1 bl ops os r
      | .bad => .bad
-     | .outside => .outside)
+     | .outside => .outside
+     | .split => .split)
   | _, _, _ => .bad
 
 end Ref
 
-/-- the command that follows on the machine is exact (C01 for one command) -/
+/-- the command that follows on the machine is exact (C01 for one command; its output must not
+    contain the prompt either) -/
 def nextOk (c : Case) (n : NextObs) : Bool :=
   let line := Shell.lineOf c.next ++ [Tty.CR]
   if forbidden (blacklist c) line then n.val == .err "illegal" && n.argv.isNone
+  else if !promptOk (prompt c) (Tty.cook c.next.out ++ prompt c) (some 0) then true
   else n.argv == some c.next.args && n.val == .rc c.next.status (text (Tty.cook c.next.out))
 
 /-- the scenario after `run()` was entered -/
@@ -190,10 +195,11 @@ def entered (c : Case) (o : Obs) : Bool :=
   let (out0, rem) := start ps1 c.steps
   let echo := Tty.echo false line
   -- the command line is read back exactly
-  o.enter.res == .unit && o.enter.pieces.all (0 < ·) && o.enter.pieces.sum == echo.length &&
+  o.enter.res == .unit && o.enter.pieces.sum == echo.length &&
   (if !promptOk ps1 out0 rem.status then true else      -- outside: the command prints the prompt itself
    match Ref.walk ps1 (blacklist c) c.ops o.ops { rem := rem, pend := out0 } with
    | .bad => false
+   | .split => false
    | .outside => true
    | .ok (r, raised) =>
      -- leaving the block: the body's exception, else RuntimeError unless terminated
@@ -216,7 +222,7 @@ def explain (c : Case) (o : Obs) : String :=
   let ps1 := prompt c
   if forbidden (blacklist c) (lineOf c ++ [Tty.CR]) then "command line refused: see enter / next" else
   let (out0, rem) := start ps1 c.steps
-  if !(o.enter.res == .unit && o.enter.pieces.all (0 < ·) && o.enter.pieces.sum == (Tty.echo false (lineOf c ++ [Tty.CR])).length) then "enter" else
+  if !(o.enter.res == .unit && o.enter.pieces.sum == (Tty.echo false (lineOf c ++ [Tty.CR])).length) then "enter" else
   if !promptOk ps1 out0 rem.status then "outside: prompt in initial output" else
   let rec go (i : Nat) : List TOp → List OpObs → Ref → String
     | [], [], r => s!"after the body: phase {repr r.phase} pending {r.pend.length}"
@@ -224,9 +230,21 @@ def explain (c : Case) (o : Obs) : String :=
       (match Ref.step ps1 (blacklist c) op ob r with
        | .ok r' => (match op with | .raise => "after raise" | _ => go (i + 1) ops os r')
        | .bad => s!"operation {i} rejected: phase {repr r.phase} pending {r.pend.length} status {repr r.rem.status}"
+       | .split => s!"operation {i} returned a value that reaches into the shell's prompt: pending {r.pend.length}"
        | .outside => s!"operation {i} outside the domain")
     | _, _, _ => s!"operation count at {i}"
   go 0 c.ops o.ops { rem := rem, pend := out0 }
+
+/-- the scenario is in the domain up to a value-returning read that has consumed part of the
+    shell's prompt (the known finding) -/
+def splits (c : Case) (o : Obs) : Bool :=
+  let ps1 := prompt c
+  if forbidden (blacklist c) (lineOf c ++ [Tty.CR]) then false else
+  let (out0, rem) := start ps1 c.steps
+  if !promptOk ps1 out0 rem.status then false else
+  match Ref.walk ps1 (blacklist c) c.ops o.ops { rem := rem, pend := out0 } with
+  | .split => true
+  | _ => false
 
 end Run
 
